@@ -3,6 +3,7 @@ package storage
 import (
 	"bytes"
 	"math"
+	"sort"
 	"sync"
 )
 
@@ -257,6 +258,56 @@ func (s *State) IterateRange(start, end []byte, ascending bool, fn func(key, val
 		}
 		stop := fn(key, value)
 		if stop {
+			return true
+		}
+	}
+	return true
+}
+
+// IterateRangeAll is IterateRange over everything a read would find: the keys of the range that so
+// far exist only in the block cache or in the open transaction session are visited too, in order
+// (IterateRange takes its keys from the tree alone). For loops that have to reach records written
+// earlier in the same block, like the sub names of a name that changes hands.
+func (s *State) IterateRangeAll(start, end []byte, ascending bool, fn func(key, value []byte) bool) (stop bool) {
+	keys := make([]StoreKey, 0, 100)
+	seen := make(map[string]bool)
+	s.cs.IterateRange(start, end, ascending, func(key, value []byte) bool {
+		keys = append(keys, key)
+		seen[string(key)] = true
+		return false
+	})
+	added := false
+	collect := func(it Iterable) {
+		it.Iterate(func(key, value []byte) bool {
+			if (start == nil || bytes.Compare(key, start) >= 0) && (end == nil || bytes.Compare(key, end) < 0) && !seen[string(key)] {
+				seen[string(key)] = true
+				keys = append(keys, append(StoreKey{}, key...))
+				added = true
+			}
+			return false
+		})
+	}
+	collect(s.rawCache().GetIterable())
+	if s.txSession != nil {
+		collect(s.txSession.GetIterable())
+	}
+	if added {
+		sort.Slice(keys, func(i, j int) bool {
+			if ascending {
+				return bytes.Compare(keys[i], keys[j]) < 0
+			}
+			return bytes.Compare(keys[i], keys[j]) > 0
+		})
+	}
+	for _, key := range keys {
+		if s.deleted(key) {
+			continue
+		}
+		value, err := s.Get(key)
+		if err != nil {
+			continue
+		}
+		if fn(key, value) {
 			return true
 		}
 	}
